@@ -98,6 +98,8 @@ pub broadcast proof fn axiom_yields_val_vec(a: Vec<u8>) ensures #[trigger] yield
 pub assume_specification<T, A, I> [<std::vec::Vec<T, A> as std::iter::Extend<T>>::extend] (v: &mut std::vec::Vec<T, A>, i: I)
     where A: std::alloc::Allocator, I: std::iter::IntoIterator<Item = T>,
     ensures final(v)@ == old(v)@ + yields_val::<T, I>(i);
+pub assume_specification<T, U, F: FnOnce(T) -> U> [Option::<T>::map_or] (o: Option<T>, d: U, f: F) -> (r: U)
+    ensures match o { Some(x) => call_ensures(f, (x,), r), None => r == d };
 pub assume_specification<T> [<[T]>::contains] (s: &[T], x: &T) -> (r: bool)
     where T: std::cmp::PartialEq,
     ensures r == s@.contains(*x);
